@@ -10,7 +10,7 @@ LEVEL_TEXT = ('Static lockstep analysis of the parallel point / log-likelihood /
 
 
 def run(ctx):
-    rule_L1_sampler(ctx, {'rows', 't'})
+    rule_L1_sampler(ctx, {'rows', 't', 'shell'})
     rule_L2_move(ctx)
     rule_L3_L4(ctx)
     rule_L5(ctx)
